@@ -97,7 +97,7 @@ def graph_disjoint(fl, e, c):
                 if not isinstance(o, tuple):
                     seen[id(o)] = o
                 stack.extend(o.values() if isinstance(o, dict) else o)
-            elif mod.startswith("fuzzylite") and not isinstance(o, (fl.Activation.__mro__[-1],)) :
+            elif mod.startswith("fuzzylite"):
                 if isinstance(o, __import__("enum").Enum):
                     continue
                 seen[id(o)] = o
@@ -302,6 +302,9 @@ def ob_sequence(ename, spec, sname, seq, label):
                               "            if who == 'e': tog[('c', tk)] = val",
                               "        if any(isinstance(t, (fl.Linear, fl.Function)) and t.engine is not c for vv in c.variables for t in vv.terms): bad = 'step C: a Linear/Function term of the copy references another engine'; break",
                               "        if any(id(t) in {id(u) for w in e.variables for u in w.terms} for vv in c.variables for t in vv.terms): bad = 'step C: the copy shares term objects with the original'; break",
+                              "        comps = lambda g: [o for rb in g.rule_blocks for o in (rb, rb.conjunction, rb.disjunction, rb.implication, rb.activation, *rb.rules) if o is not None] + [o for ov in g.output_variables for o in (ov, ov.aggregation, ov.defuzzifier, ov.fuzzy) if o is not None] + list(g.input_variables)",
+                              "        shared = sorted({type(o).__name__ for o in comps(c) if id(o) in {id(u) for u in comps(e)}})",
+                              "        if shared: bad = 'step C: the copy shares component objects with the original: %r' % (shared,); break",
                               "    elif o == 'CHECK_GRAPH':",
                               "        if any(isinstance(t, (fl.Linear, fl.Function)) and t.engine is not c for vv in c.variables for t in vv.terms): bad = 'term of the copy references another engine'; break",
                               "    elif o in ('E', 'W'): edit(tgt, o, q); eds.append(o)",
